@@ -652,12 +652,11 @@ fn replay(tier: Tier, case: &Value) -> Vec<Violation> {
 }
 
 fn run(ctx: &Ctx) -> i32 {
-    let sites = match lock_sites_are_hooked() {
-        Ok(n) => n,
-        Err(e) => {
-            eprintln!("MACHINERY: C16 cannot decide: {}", e);
-            return 2;
-        }
+    // A lock site without a hook makes the enumeration incomplete.  Violations found anyway are real (exit 1);
+    // only the ABSENCE of violations cannot be trusted then (exit 2, "cannot decide").
+    let (sites, unhooked) = match lock_sites_are_hooked() {
+        Ok(n) => (n, None),
+        Err(e) => (0, Some(e)),
     };
     let wd = work_dir("C16");
     if let Ok(rd) = std::fs::read_dir(&wd) {
@@ -670,7 +669,7 @@ fn run(ctx: &Ctx) -> i32 {
     let cfgs = configs(ctx.tier);
     let spaces = vec![("schedules", space(ctx.tier, "schedules").unwrap())];
     let cfgs2 = cfgs.clone();
-    run_e1_with(
+    let code = run_e1_with(
         ctx,
         E1Spec {
             spaces,
@@ -705,5 +704,13 @@ fn run(ctx: &Ctx) -> i32 {
             let ex = counters.get("executions").cloned().unwrap_or(0);
             cov.insert("schedules_explored".into(), json!(ex));
         },
-    )
+    );
+    if let Some(e) = unhooked {
+        if code == 0 {
+            eprintln!("MACHINERY: C16 cannot decide: {} (no violation found at the hooked scheduling points, but the enumeration is incomplete)", e);
+            return 2;
+        }
+        eprintln!("note: {} - the enumeration is incomplete, the violations above are real nevertheless", e);
+    }
+    code
 }
